@@ -367,6 +367,23 @@ impl<'c> E1<'c> {
             match (&exp, &got) {
                 (Ok(e), Ok(g)) => {
                     self.out.digest = hash_str(self.out.digest, &format!("{g:?}"));
+                    if e != g
+                        && self.case.property == "C22"
+                        && self.case.knobs.hash_mod == 1
+                        && fault::FIRED.load(SeqCst) > 0
+                        && prog.nodes.iter().any(|x| x.ops.iter().any(|o| matches!(o, Op::NewTs { .. })))
+                    {
+                        // recorded finding #17 (C22): with colliding identity hashes a re-created tracked
+                        // struct takes over the slot of a struct with another identity (new generation).
+                        // If the creator's execution is interrupted by a panic after the takeover, the
+                        // retry finds the slot already holding the new identity and hands out the *old*
+                        // id again: memos that read the old struct's identity fields are validated.
+                        self.out.viol("colliding_identity_stale_after_fault", step, format!("node {n}: expected {e:?} got {g:?}"));
+                        self.stop_run = true;
+                        info.ok = true;
+                        self.drain(&info);
+                        return;
+                    }
                     if e != g && self.bad_converged_seen {
                         // C15: the property promises recovery after a non-convergence *panic*. When
                         // the non-monotone cycle converged silently, its results (history dependent,
